@@ -22,7 +22,7 @@ ASSUMPTIONS = ['mean/std estimator is numpy mean/std of the leading min(N,len) s
                'rounding ties (pre-round value within 1e-9 of x.5) are excluded',
                'inputs whose squares overflow a double are outside the domain']
 REQUIRED_CLASSES = ['kind=real', 'kind=complex', 'kind=free_real', 'kind=free_complex', 'period>1', 'period<=0',
-                    'dist=const_inexact', 'dist=const_exact', 'dist=huge', 'dist=tiny', 'custom=scalar', 'custom=pair',
+                    'dist=const_inexact', 'dist=const_exact', 'dist=huge', 'dist=tiny', 'dist=lead_const', 'custom=scalar', 'custom=pair',
                     'mixed_clip', 'refresh_and_hold']
 
 FWHM_M = 2 * math.sqrt(2 * math.log(2))
@@ -35,6 +35,11 @@ arr_spec = st.one_of(
                            'a': gen.finite(-50, 50), 'b': gen.finite(1e-3, 1e3)}),
     st.fixed_dictionaries({'dist': st.just('const_inexact'), 'n': st.integers(1, 60),
                            'a': st.sampled_from([0.1, 0.3, -0.7, 1e-3, 123.456, 1.1e9, -2.2e-5, 1 / 3])}),
+    # constant (inexact) leading window followed by varying samples: statistics must come from
+    # the leading min(N, len) samples only
+    st.fixed_dictionaries({'dist': st.just('lead_const'), 'n': st.integers(1, 60), 'm': st.integers(1, 40),
+                           'seed': st.integers(0, 2 ** 20),
+                           'a': st.sampled_from([0.1, 0.3, -0.7, 1.1, 7.7, 123.456])}),
     st.fixed_dictionaries({'dist': st.just('const_exact'), 'n': st.integers(1, 60),
                            'a': st.sampled_from([0.0, 1.0, -2.5, 1024.0, 0.125])}),
     st.fixed_dictionaries({'dist': st.just('huge'), 'n': st.integers(2, 100), 'seed': st.integers(0, 2 ** 20),
@@ -62,7 +67,7 @@ def strategy(tier):
                            st.tuples(st.integers(-3, 2), gen.finite(0.51, 0.99)).map(lambda t: t[0] + t[1])),
         'fwhm': st.one_of(st.just(32.0), gen.finite(0.5, 64.0)),
         'period': st.sampled_from([-3, -1, 0, 1, 1, 2, 3, 5]),
-        'N': st.one_of(st.integers(1, 500), st.just(10000)),
+        'N': st.one_of(st.integers(1, 60), st.integers(1, 500), st.just(10000)),
         'calls': st.lists(call_spec, min_size=1, max_size=12),
     })
 
@@ -75,6 +80,8 @@ def make_array(spec):
         return np.full(spec['n'], spec['a'], dtype=float)
     rs = np.random.RandomState(spec['seed'])
     n = spec['n']
+    if d == 'lead_const':
+        return np.concatenate([np.full(n, spec['a'], dtype=float), spec['a'] + rs.standard_normal(spec['m'])])
     if d == 'gauss':
         return spec['a'] + spec['b'] * rs.standard_normal(n)
     if d == 'uniform':
